@@ -95,6 +95,25 @@ func loadProgram(repo string, pkgDirs []string, trustedDir string) (*Program, er
 			}
 		}
 	}
+	// callee results that a contract declares fresh count as fresh roots in the syntactic analyses
+	freshCalleeHook = func(c *ssa.CallCommon) bool {
+		var key string
+		if c.IsInvoke() {
+			key = methodKey(c.Method)
+		} else if f, ok := c.Value.(*ssa.Function); ok {
+			key = funcKey(f)
+		}
+		con := P.Contracts[key]
+		if con == nil {
+			return false
+		}
+		for _, e := range con.Ens {
+			if strings.Contains(e.Src, "allocated(now(result") {
+				return true
+			}
+		}
+		return false
+	}
 	// trusted externs
 	if trustedDir != "" {
 		files, _ := filepath.Glob(filepath.Join(trustedDir, "*.spec"))
